@@ -283,7 +283,13 @@ def check_case(case):
 
 def case_strategy():
     ann = st.tuples(st.sampled_from(["prec", "prec", "mem", "mem", "win"]), st.integers(0, 2), st.integers(0, 9), st.integers(0, 13)).map(list)
-    return st.fixed_dictionaries({"prog": programs(max_stmts=9, config_pct=10), "ann": st.lists(ann, min_size=0, max_size=5)})
+    from ..gen.templates import templates
+
+    # a third of the programs are forced to contain calls (annotation mismatches ACROSS a call are
+    # half of the property's clauses), some are the hand-written templates (windows of allocations
+    # handed to callees, externs at two precisions, ...)
+    progs = st.one_of(programs(max_stmts=9, config_pct=10), programs(max_stmts=9, config_pct=10), programs(max_stmts=8, config_pct=10, calls=True, force_call=True), programs(max_stmts=8, config_pct=0, calls=True, force_call=True), templates())
+    return st.fixed_dictionaries({"prog": progs, "ann": st.lists(ann, min_size=0, max_size=5)})
 
 
 def run(ctx):
